@@ -204,6 +204,29 @@ def execute(case):
                         V("file_lacks_header", data[:80])
                     if _has_code(so):
                         V("code_printed_although_o_given", so[:100])
+                    if case["out"] == "existing_file":
+                        # successive runs over the file the tool itself wrote: shorter input first (its code is a prefix of the next
+                        # run's), then longer, then shorter again - every successful run leaves exactly its own complete text
+                        plain = []
+                        for i, content in enumerate(({"x": 1, "y": 2.5}, {"p": 3, "q": 4.5}, {"u": 5, "v": True})):
+                            nm = f"plain{i}.json"
+                            with open(os.path.join(d, nm), "w") as f:
+                                json.dump(content, f)
+                            plain.append(nm)
+                        fmt = "json"
+                        for sub in (plain[:1], plain, plain[:1], plain[:2], names[:1], names):
+                            a2 = ["-i", fmt, "-f", "pydantic"]
+                            for i, n in enumerate(sub):
+                                a2 += ["-m", f"Model{i}", n]
+                            s1, o1, e1 = clidrv.run_subprocess(a2, d)
+                            s2, o2, e2 = clidrv.run_subprocess(a2 + ["-o", "out.py"], d)
+                            if s1 != 0 or s2 != 0:
+                                V("fault_free_run_fails", f"rerun {sub}: status {s1}/{s2}: {(e1 + e2)[-200:]}")
+                                continue
+                            now = clidrv.split_header(open(target, encoding="utf8").read())[1]
+                            if now.rstrip("\n") != clidrv.split_header(o1)[1].rstrip("\n"):
+                                V("file_differs_from_printed_text", f"after re-running over the tool's own earlier output ({len(sub)} inputs): file "
+                                  f"{now[-100:]!r} / stdout {clidrv.split_header(o1)[1][-100:]!r}")
             return {"obs": ["success:" + case["out"]], "viol": viol, "outcome": "success", "show": " ".join(argv), "nontrivial": "ok:" + core.digest(case)}
         kind, pos, out = case["kind"], case["pos"], case["out"]
         shape = ["kind:" + kind, "pos:" + pos, "out:" + out]
